@@ -29,7 +29,13 @@ LEVEL_TEXT = (
     "(5) sessions (C20_session_table_roundtrip, C20_session_list_roundtrip, C20_session_invariant; induction over call sequences of any length): in one process, after ANY calls that do not terminate it "
     "(exports to any path, the same path included, longer, shorter or of the other kind; imports; line counts), an export to p, then any calls not exporting to p, the import from p and Count_Lines answer "
     "exactly as the single round trip does: the answer depends on the file system only through the last export to that path (the model's Export_* replaces the file, as ofstream::open truncates). "
-    "The session model is tied to the code by `session` cases (2..9 calls over 1..3 paths, 200-row tables followed by 1-row ones, lists where tables were, repeated requests). "
+    "(6) Export_Function with ANY argument list (C20_function_rows_one_per_argument, C20_session_function_roundtrip, C20_session_function_range_roundtrip; every number type, no premise on the arguments): "
+    "the rows read back are one per argument of x_list in the order of the list — unsorted lists, the same argument several times, equal neighbours (joined grids, 0.0 next to -0.0), ranges whose spacing is below the "
+    "resolution of the number type included —, the line count is header lines + arguments, equal arguments give equal rows, and the same holds for Export_Function (list and range overload) as a call of a session after and "
+    "between any other calls. "
+    "The session model is tied to the code by `session` cases (2..9 calls over 1..3 paths, 200-row tables followed by 1-row ones, lists where tables were, tabulated functions (list and range overload) among them, repeated requests); "
+    "the function round trips are generated with increasing, decreasing, unsorted argument lists, joined grids, runs of one value, signed zeros, neighbours at relative distances 1 ulp .. 1e-6, fixed spacings at magnitudes 1e16..1e22, "
+    "and ranges with fewer representable numbers between the limits than steps, descending and coinciding limits, 0..2 steps (coverage.input_distribution args:* / range:* / grid:*). "
     "NOT theorems (checked per run by correspondence and implementation-side predicates): that iostreams implement such an fmt6 (the real writer/reader run on tables "
     "1..200 x 1..12, values over 600 decades, units over 60 decades, multi-line and numeric headers), that the compilers' folded static values are the denotation "
     "(each build's constants are read after start-up and compared with the exact denotation), Round's numerical accuracy (property C17), the character-level skipping of header lines (probed with lines of up to 25000 characters), the byte-level buffering of the readers and of the line counter (the line/token model has no byte count: exported and raw files are aimed, through the header length or the width of the entries, at sizes k*B and k*B+-1 for B = 512..65536, and the sizes reached are reported in coverage.size_aimed_files), values whose quotient by the unit is not a normal finite double (excluded and counted); "
@@ -137,6 +143,95 @@ def rand_header(rng, multi=None):
 FEXPRS = [("x", lambda x: x), ("* c %s x" % hx(2.5), lambda x: 2.5 * x), ("+ x c %s" % hx(1.0), lambda x: x + 1.0),
           ("* x x", lambda x: x * x), ("neg x", lambda x: -x), ("exp neg abs x", lambda x: math.exp(-abs(x))),
           ("sin x", lambda x: math.sin(x)), ("c %s" % hx(3.0), lambda x: 3.0), ("/ c %s + c %s * x x" % (hx(1.0), hx(1.0)), lambda x: 1.0 / (1.0 + x * x))]
+
+
+
+# ------------------------------------------------------------------ argument lists / ranges of tabulated functions
+# Export_Function promises one row per argument of x_list, whatever the list looks like: the property does not ask for sorted or
+# distinct arguments.  Shapes: increasing, decreasing, unsorted; the same argument several times (next to each other: two grids joined
+# at their common end point, 0.0 next to -0.0, a whole run of one value; or apart: a closed loop that returns to its start); arguments
+# closer than the six digits written (relative distances on a geometric ladder 1e-16 .. 1e-6, +-1 .. +-1000 ulp); huge and tiny
+# magnitudes where a fixed spacing falls below the resolution of doubles.
+def ulps(x, k):
+    for _ in range(abs(k)): x = math.nextafter(x, math.inf if k > 0 else -math.inf)
+    return x
+
+
+def near(rng, x):
+    """x itself, or a neighbour at a relative distance from 1 ulp to 1e-6"""
+    k = rng.random()
+    if k < 0.35: return x
+    if k < 0.6: return ulps(x, rng.choice([-1, 1]) * rng.choice([1, 1, 2, 3, 10, 100, 1000]))
+    return x * (1.0 + rng.choice([-1, 1]) * 10.0 ** rng.uniform(-16, -6)) if x != 0.0 else rng.choice([0.0, -0.0, 1e-300, -1e-300, 1e-30])
+
+
+def rand_arg(rng):
+    k = rng.random()
+    if k < 0.45: return rng.uniform(-5, 5)
+    if k < 0.6: return float(rng.randint(-20, 20)) / rng.choice([1, 2, 4, 10])
+    if k < 0.8: return 10.0 ** rng.uniform(-20, 2)
+    if k < 0.9: return rng.choice([-1, 1]) * 10.0 ** rng.uniform(-30, 30)
+    return rng.choice([0.0, -0.0, 1e16, 9007199254740992.0, 1e-300, 1.0, -1.0, 1e22])
+
+
+def rand_args(rng, nmax=40):
+    """(list of arguments, tag)"""
+    kind = rng.choice(["increasing", "increasing", "decreasing", "unsorted", "joined-grids", "joined-grids", "repeated-run", "all-equal", "zero-signs",
+                       "near-equal", "near-equal", "closed-loop", "coarse-huge", "duplicated-at-random"])
+    n = rng.choice([1, 2, 3, 10, nmax])
+    base = sorted(rand_arg(rng) for _ in range(n))
+    if kind == "increasing": xs = base
+    elif kind == "decreasing": xs = base[::-1]
+    elif kind == "unsorted": xs = base[:]; rng.shuffle(xs)
+    elif kind == "joined-grids":          # two (or three) grids, each ending where the next begins
+        a = rng.uniform(-5, 5); xs = []
+        for _ in range(rng.choice([2, 2, 3])):
+            m = rng.choice([1, 2, 3, 5]); h = 10.0 ** rng.uniform(-3, 1); b = a + m * h
+            xs += [a + i * ((b - a) / m) for i in range(m)] + [b]; a = b
+        if rng.random() < 0.3: xs = xs[::-1]
+    elif kind == "repeated-run":          # one argument several times in a row inside an otherwise increasing list
+        i = rng.randrange(len(base)); xs = base[:i] + [base[i]] * rng.choice([2, 2, 3, 7]) + base[i + 1:]
+    elif kind == "all-equal": xs = [rand_arg(rng)] * rng.choice([2, 3, 10])
+    elif kind == "zero-signs": xs = [rng.choice([0.0, -0.0]) for _ in range(rng.choice([2, 3, 4]))] + ([1.0] if rng.random() < 0.5 else [])
+    elif kind == "near-equal":            # neighbours closer than the text can tell apart (and sometimes equal)
+        x = rand_arg(rng); xs = [x]
+        for _ in range(rng.choice([1, 2, 5])): xs.append(near(rng, xs[-1]))
+        if rng.random() < 0.5: xs = base[:len(base) // 2] + xs + base[len(base) // 2:]
+    elif kind == "closed-loop": xs = base + base[-2::-1] if len(base) > 1 else base * 2
+    elif kind == "coarse-huge":           # a fixed small spacing at a magnitude whose ulp is larger
+        a = rng.choice([1e16, 2.0 ** 53, 2.0 ** 60, -1e16, 1e22, 3e15]); h = rng.choice([0.25, 0.5, 1.0, 2.0, 3.0])
+        xs = [a + i * h for i in range(rng.choice([2, 3, 5, 9]))]
+    else:
+        xs = base[:]
+        for _ in range(rng.choice([1, 2, 4])): xs.insert(rng.randrange(len(xs) + 1), rng.choice(xs))
+    rep = any(a == b for a, b in zip(xs, xs[1:]))
+    return xs, "args:" + kind, ("args:equal-neighbours" if rep else ("args:repeated-apart" if len(set(xs)) < len(xs) else "args:distinct"))
+
+
+def grid(a, b, steps, lg):
+    """the arguments Export_Function(file, f, xMin, xMax, steps, units, logarithmic) tabulates: `steps` points from xMin to xMax"""
+    if steps < 2 or a == b: return [a]
+    if lg: return [math.exp(math.log(a) + i * ((math.log(b) - math.log(a)) / (steps - 1.0))) for i in range(steps)]
+    return [a + i * ((b - a) / (steps - 1.0)) for i in range(steps)]
+
+
+def rand_range(rng):
+    """(xMin, xMax, steps, logarithmic, tag): ordinary ranges and ranges whose spacing is at / below the resolution of doubles"""
+    lg = rng.random() < 0.5
+    kind = rng.choice(["ordinary", "ordinary", "ordinary", "below-resolution", "below-resolution", "near-equal-limits", "descending", "equal-limits", "few-steps"])
+    steps = rng.choice([2, 3, 10, 33, 200])
+    a, b = (10.0 ** rng.uniform(-8, 0), 10.0 ** rng.uniform(0, 8)) if lg else (rng.uniform(-10, 0), rng.uniform(0.5, 10))
+    if kind == "below-resolution":        # fewer representable numbers between the limits than steps
+        a = rng.choice([1e16, 2.0 ** 53, 1.0, 1e-5, 1e22, 3.5, 1e-300]) * (1 if lg else rng.choice([-1, 1]))
+        b = ulps(a, rng.choice([1, 1, 2, 3, 5]) * rng.choice([-1, 1])); steps = rng.choice([2, 3, 4, 5, 10, 33])
+    elif kind == "near-equal-limits":
+        if not lg: a = rand_arg(rng) or 1.0
+        b = a * (1.0 + rng.choice([-1, 1]) * 10.0 ** rng.uniform(-16, -6))
+    elif kind == "descending": a, b = b, a
+    elif kind == "equal-limits": b = a
+    elif kind == "few-steps": steps = rng.choice([0, 1, 2])
+    if lg and not (a > 0 and b > 0): a, b = abs(a) or 1.0, abs(b) or 2.0
+    return a, b, steps, lg, "range:" + kind
 
 
 def table_line(t): return f"{len(t)} " + " ".join(flist(r) for r in t) if t else "0"
@@ -368,7 +463,7 @@ def generate_sessions(rng, tier, cs):
     for it in range(n):
         npth = rng.choice([1, 1, 2, 3])
         paths = [os.path.join(FILES, "sess_%d.txt" % i) for i in range(npth)]
-        held = {}; calls = []; wf = True; rewritten = False
+        held = {}; calls = []; wf = True; rewritten = False; has_f = False
         amb = None
         if rng.random() < 0.3: amb, _k = rand_ambient(rng)
         for _ in range(rng.randint(2, 9)):
@@ -376,13 +471,27 @@ def generate_sessions(rng, tier, cs):
             if k < 0.42 or not held:
                 if pi in held: rewritten = True
                 h = rand_header(rng)
-                if rng.random() < 0.4:
+                kk = rng.random()
+                if kk < 0.22:          # a tabulated function: argument lists with repeated / nearly equal arguments, ranges down to the resolution
+                    for _try in range(8):
+                        fe, f = rng.choice(FEXPRS); dims = [] if rng.random() < 0.3 else [10.0 ** rng.uniform(-12, 12), 10.0 ** rng.uniform(-12, 12)]
+                        if rng.random() < 0.6: xs, _t1, _t2 = rand_args(rng, 12); spec = f"{fe} {flist(xs)} {flist(dims)}"; kind = "ef"
+                        else:
+                            a, b, steps, lg, _t1 = rand_range(rng); steps = min(steps, 33); xs = grid(a, b, steps, lg)
+                            spec = f"{fe} {hx(a)} {hx(b)} {steps} {flist(dims)} {int(lg)}"; kind = "er"
+                        if all(pair_ok(v_, dims[j] if dims else 1.0) for x in xs for j, v_ in enumerate((x, f(x)))): break
+                        EXCLUDED["n"] += 1
+                    else: fe, f = FEXPRS[0]; xs = [1.0, 1.0, 2.0]; dims = []; spec = f"{fe} {flist(xs)} {flist(dims)}"; kind = "ef"
+                    if pi in held and rng.random() < 0.2 and held[pi][0] == "t" and len(held[pi]) == 6: h, t, dims, kind, spec = held[pi][1:]
+                    else: t = [[x, f(x)] for x in xs]
+                    calls.append(f"{kind} {pi} {hexs(h)} {spec}"); held[pi] = ("t", h, t, dims, kind, spec); has_f = True
+                elif kk < 0.5:
                     d = rand_unit(rng); l = [value_for(rng, d) for _ in range(rng.choice([0, 1, 2, 3, 10, 50, 200]))]
                     if pi in held and rng.random() < 0.2 and held[pi][0] == "l": h, l, d = held[pi][1:]       # the same request again
                     calls.append(f"el {pi} {hexs(h)} {flist(l)} {hx(d)}"); held[pi] = ("l", h, l, d)
                 else:
                     t, dims = rand_small_table(rng)
-                    if pi in held and rng.random() < 0.2 and held[pi][0] == "t": h, t, dims = held[pi][1:]
+                    if pi in held and rng.random() < 0.2 and held[pi][0] == "t": h, t, dims = held[pi][1:4]
                     calls.append(f"et {pi} {hexs(h)} {table_line(t)} {flist(dims)}"); held[pi] = ("t", h, t, dims)
             elif k < 0.88:
                 pi = rng.choice(sorted(held)); e = held[pi]
@@ -397,6 +506,7 @@ def generate_sessions(rng, tier, cs):
                 else: calls.append(f"il {pi} {hx(rng.choice([1.0, 2.0]))} {rng.choice([0, 1, 2])}")
         line = f"session {npth} " + " ".join(paths) + f" {len(calls)} " + " ".join(calls)
         tags = ("session", "session:well-formed" if wf else "session:with-other-requests", "session:path-rewritten" if rewritten else "session:paths-written-once")
+        if has_f: tags += ("session:with-function-export",)
         if amb: cs.append(Case("amb " + amb + " " + line, tags + ("ambient",) + tuple("ambient:" + x for x in ambient_kinds(amb))))
         else: cs.append(Case(line, tags))
 
@@ -410,6 +520,11 @@ def session_predicates(r, io, v):
         k = r.w(); pi = r.n()
         if k == "el": calls.append((k, pi, unhexs(r.w()), r.l(), r.f()))
         elif k == "et": calls.append((k, pi, unhexs(r.w()), r.tb(), r.l()))
+        elif k == "ef":           # Export_Function over a list: one row (x, f(x)) per argument
+            h = unhexs(r.w()); f = r.fexpr(); xs = r.l(); calls.append(("et", pi, h, [[x, f(x)] for x in xs], r.l()))
+        elif k == "er":
+            h = unhexs(r.w()); f = r.fexpr(); a, b = r.f(), r.f(); steps = r.n(); dims = r.l(); lg = r.n()
+            calls.append(("et", pi, h, [[x, f(x)] for x in grid(a, b, steps, lg)], dims))
         elif k == "il": calls.append((k, pi, r.f(), r.n()))
         elif k == "it": calls.append((k, pi, r.l(), r.n()))
         else: calls.append((k, pi))
@@ -584,18 +699,25 @@ def generate(rng, tier):
         if rng.random() < 0.4:
             bad = [1.0] * (c_ + rng.choice([-1, 1, 2])) or [1.0, 1.0]
             cs.append(Case(f"rt_table {path(k)} {hexs(h)} {table_line(t)} {flist(bad)} -1", ("guards", "dims-mismatch")))
-    # ---- tabulated functions
-    for _ in range(3000 if big else 150):
+    # ---- tabulated functions: argument lists of every shape (sorted or not, with repeated and nearly equal arguments), ranges down to the resolution of doubles
+    def fdims(): return [] if rng.random() < 0.3 else [10.0 ** rng.uniform(-12, 12), 10.0 ** rng.uniform(-12, 12)]
+    def inside(f, xs, dims): return all(pair_ok(v, dims[j] if dims else 1.0) for x in xs for j, v in enumerate((x, f(x))))
+    for _ in range(3000 if big else 170):
         k += 1
-        fe, _f = rng.choice(FEXPRS)
-        n = rng.choice([1, 2, 3, 10, 40]); xs = sorted(rng.uniform(-5, 5) if rng.random() < 0.7 else 10.0 ** rng.uniform(-20, 2) for _ in range(n))
-        dims = [] if rng.random() < 0.3 else [10.0 ** rng.uniform(-12, 12), 10.0 ** rng.uniform(-12, 12)]
-        cs.append(Case(f"rt_func {path(k)} {hexs(rand_header(rng))} {fe} {flist(xs)} {flist(dims)}", ("roundtrip", "function-list")))
-        lg = rng.random() < 0.5
-        a, b = (10.0 ** rng.uniform(-8, 0), 10.0 ** rng.uniform(0, 8)) if lg else (rng.uniform(-10, 0), rng.uniform(0.5, 10))
-        steps = rng.choice([2, 3, 10, 33, 200]);
-        if rng.random() < 0.08: steps = rng.choice([0, 1])      # degenerate grid: the single point xMin
-        cs.append(Case(f"rt_func2 {path(k)} {hexs(rand_header(rng))} {fe} {hx(a)} {hx(b)} {steps} {flist(dims)} {int(lg)}", ("roundtrip", "function-range")))
+        for _try in range(8):             # (function, arguments, units) whose quotients are zero or normal doubles: inside the quantifier
+            fe, f = rng.choice(FEXPRS); xs, t1, t2 = rand_args(rng); dims = fdims()
+            if inside(f, xs, dims): break
+            EXCLUDED["n"] += 1
+        else: fe, f = FEXPRS[0]; xs, t1, t2 = [1.0, 1.0, 2.0], "args:repeated-run", "args:equal-neighbours"; dims = []
+        cs.append(Case(f"rt_func {path(k)} {hexs(rand_header(rng))} {fe} {flist(xs)} {flist(dims)}", ("roundtrip", "function-list", t1, t2)))
+        for _try in range(8):
+            fe, f = rng.choice(FEXPRS); a, b, steps, lg, t1 = rand_range(rng); dims = fdims()
+            if inside(f, grid(a, b, steps, lg), dims): break
+            EXCLUDED["n"] += 1
+        else: fe, f = FEXPRS[0]; a, b, steps, lg, t1 = 1e16, 1e16 + 2, 3, False, "range:below-resolution"; dims = []
+        g = grid(a, b, steps, lg)
+        t2 = "grid:equal-neighbours" if any(u == w for u, w in zip(g, g[1:])) else "grid:distinct"
+        cs.append(Case(f"rt_func2 {path(k)} {hexs(rand_header(rng))} {fe} {hx(a)} {hx(b)} {steps} {flist(dims)} {int(lg)}", ("roundtrip", "function-range", t1, t2)))
     # ---- files not written by Export_*: guards of Import_Table / Import_List, line counting
     cs.append(Case(f"import_missing {os.path.join(FILES, 'missing.txt')} 0", ("guards", "missing")))
     cs.append(Case(f"import_missing {os.path.join(FILES, 'missing.txt')} 1", ("guards", "missing")))
@@ -760,9 +882,7 @@ def predicates(c, io):
             dims = r.l()
             if op == "rt_func2":
                 lg = r.n()
-                if steps < 2 or a == b: xs = [a]
-                elif lg: xs = [math.exp(math.log(a) + i * ((math.log(b) - math.log(a)) / (steps - 1.0))) for i in range(steps)]
-                else: xs = [a + i * ((b - a) / (steps - 1.0)) for i in range(steps)]
+                xs = grid(a, b, steps, lg)
             tb = [[x, f(x)] for x in xs]
             if dims and len(dims) != 2: return out
             if not all(pair_ok(x, dims[j] if dims else 1.0) for row in tb for j, x in enumerate(row)): return out    # outside the quantifier
